@@ -25,6 +25,15 @@ class Timeout(Exception):
 
 
 def _alarm(signum, frame):
+    # a wall-clock limit says nothing on a machine that is not giving this process its share of the
+    # CPU: with the run queue well beyond the number of cores the event is an infrastructure failure
+    # (exit 2), never a verdict about the library
+    try:
+        load, cpus = os.getloadavg()[0], (os.cpu_count() or 1)
+    except OSError:
+        load, cpus = 0.0, 1
+    if load > 2.0 * cpus:
+        raise vlib.Infra("watchdog fired with load average %.1f on %d cores: machine overloaded, no verdict" % (load, cpus))
     raise Timeout()
 
 
@@ -60,6 +69,8 @@ def snapshot(f, limit=4000, maxdepth=12):
                 else:
                     out.append(("F", p, f.readbytes(p)))
         with_watchdog(lambda: rec("", 0), 10)
+    except vlib.Infra:
+        raise
     except Exception:
         return None
     return out
@@ -211,7 +222,7 @@ def apply_op(f, op, keep_order=False):
     try:
         return ("ok", with_watchdog(go, 10))
     except BaseException as e:  # noqa
-        if isinstance(e, (KeyboardInterrupt, SystemExit)):
+        if isinstance(e, (KeyboardInterrupt, SystemExit, vlib.Infra)):
             raise
         return ("err", exc_name(e), e)
 
